@@ -1,7 +1,7 @@
 (* C03 — property theorems only. Each is closed by [exact] of a lemma proved in C03/Proofs*.v. *)
 From Coq Require Import List ZArith Bool String Lia.
 Import ListNotations.
-From AgileV Require Import C03.Model C03.ModelCnn C03.ModelNet C03.ModelMulti C03.Proofs C03.ProofsS C03.ProofsCnn C03.ProofsCnn2 C03.ProofsCnn3 C03.ProofsChains C03.ProofsNet C03.ProofsMulti C03.ProofsShape.
+From AgileV Require Import C03.Model C03.ModelCnn C03.ModelNet C03.ModelMulti C03.Proofs C03.ProofsS C03.ProofsCnn C03.ProofsCnn2 C03.ProofsCnn3 C03.ProofsCnnFix C03.ProofsChains C03.ProofsNet C03.ProofsMulti C03.ProofsShape.
 Local Open Scope Z_scope.
 
 (* ======================= EvolvableMLP ======================= *)
@@ -220,7 +220,7 @@ Print Assumptions rebuild_refuted_resnet_prefix.
 (* ======================= EvolvableCNN ======================= *)
 (* the three per-layer lists keep the same length *)
 Theorem wf_inv_cnn : forall st c a m r1 r2, cnn_wf a -> cnn_wf (arch_of (cnn_step st c a m r1 r2)).
-Proof. exact cnn_wf_inv. Qed.
+Proof. exact cnn_wf_inv_fix. Qed.
 Print Assumptions wf_inv_cnn.
 
 (* channels / number of layers: every interval containing the declared one is invariant
@@ -228,105 +228,83 @@ Print Assumptions wf_inv_cnn.
 Theorem channels_inv_cnn : forall st c a m r1 r2 lo hi,
   lo <= c_min_ch c -> c_max_ch c <= hi -> cnn_meth_ok m -> channels a <> [] ->
   Forall (between lo hi) (channels a) -> Forall (between lo hi) (channels (arch_of (cnn_step st c a m r1 r2))).
-Proof. exact cnn_channels_inv. Qed.
+Proof. exact cnn_channels_inv_fix. Qed.
 Print Assumptions channels_inv_cnn.
 
 Theorem layers_inv_cnn : forall st c a m r1 r2 lo hi,
   lo <= c_min_layers c -> c_max_layers c <= hi -> 1 <= lo ->
   lo <= zlen (channels a) <= hi -> lo <= zlen (channels (arch_of (cnn_step st c a m r1 r2))) <= hi.
-Proof. exact cnn_layers_inv. Qed.
+Proof. exact cnn_layers_inv_fix. Qed.
 Print Assumptions layers_inv_cnn.
 
 (* kernel sizes chosen by a mutation lie in [1, 9]; strides in [1, stride of the layer before] *)
 Theorem kernels_inv_cnn : forall st c a m r1 r2 K,
   9 <= K -> cnn_meth_ok m -> cnn_wf a ->
   Forall (between 1 K) (kernels a) -> Forall (between 1 K) (kernels (arch_of (cnn_step st c a m r1 r2))).
-Proof. exact cnn_kernels_inv. Qed.
+Proof. exact cnn_kernels_inv_fix. Qed.
 Print Assumptions kernels_inv_cnn.
 
 Theorem strides_inv_cnn : forall st c a m r1 r2 S,
   strides a <> [] -> Forall (between 1 S) (strides a) -> Forall (between 1 S) (strides (arch_of (cnn_step st c a m r1 r2))).
-Proof. exact cnn_strides_inv. Qed.
+Proof. exact cnn_strides_inv_fix. Qed.
 Print Assumptions strides_inv_cnn.
 
 (* all quantities together, over every chain of mutation calls *)
 Theorem bounds_inv_cnn : forall st c K S a m r1 r2,
   1 <= c_min_layers c -> 9 <= K -> cnn_meth_ok m ->
   cnn_in_bounds c K S a -> cnn_in_bounds c K S (arch_of (cnn_step st c a m r1 r2)).
-Proof. exact cnn_bounds_inv. Qed.
+Proof. exact cnn_bounds_inv_fix. Qed.
 Print Assumptions bounds_inv_cnn.
 
 Theorem bounds_chain_cnn : forall st c K S, 1 <= c_min_layers c -> 9 <= K -> forall ops a,
   Forall (fun o : cnn_op => cnn_meth_ok (fst (fst o))) ops -> cnn_in_bounds c K S a -> cnn_in_bounds c K S (cnn_run st c a ops).
-Proof. exact cnn_bounds_chain. Qed.
+Proof. exact cnn_bounds_chain_fix. Qed.
 Print Assumptions bounds_chain_cnn.
 
-(* PARTIAL: validity (every layer's input is at least as large as its kernel, so torch can build and run
-   the network) is preserved by add_layer, remove_layer, add_channel, remove_channel.  Missing: change_kernel,
-   which is refuted in general below (it holds on every architecture the correspondence walks reached). *)
-Theorem valid_inv_cnn_partial : forall st c a m r1 r2,
+(* Validity (every layer's input is at least as large as its kernel, so torch can build and run the network) is preserved
+   by ALL five methods, hence over every chain: since fix 0a5e775 change_kernel rolls the kernel back when a later layer
+   would no longer fit (_kernels_fit). *)
+Theorem valid_inv_cnn : forall st c a m r1 r2,
   1 <= c_min_layers c -> 1 <= c_min_ch c -> cnn_meth_ok m ->
-  (match m with CChangeKernel _ _ => False | _ => True end) ->
   cnn_ok st a -> cnn_ok st (arch_of (cnn_step st c a m r1 r2)).
-Proof. exact cnn_valid_inv_partial. Qed.
-Print Assumptions valid_inv_cnn_partial.
+Proof. exact cnn_valid_inv. Qed.
+Print Assumptions valid_inv_cnn.
 
-(* change_kernel on the LAST layer does preserve validity (the new kernel is at most a quarter of that layer's own
-   output, which is at most its input); the gap of the partial theorem is change_kernel on an inner layer *)
-Theorem change_kernel_last_valid_cnn : forall st c a hl r1 r2,
-  cnn_ok st a -> 1 < zlen (channels a) ->
-  (match hl with Some l => l | None => pick 1 (Z.min 4 (zlen (channels a))) r1 end) = zlen (channels a) - 1 ->
-  cnn_ok st (arch_of (cnn_step st c a (CChangeKernel None hl) r1 r2)).
-Proof. exact cnn_change_kernel_last_valid. Qed.
-Print Assumptions change_kernel_last_valid_cnn.
+Theorem valid_chain_cnn : forall st c, 1 <= c_min_layers c -> 1 <= c_min_ch c -> forall ops a,
+  Forall (fun o : cnn_op => cnn_meth_ok (fst (fst o))) ops -> cnn_ok st a -> cnn_ok st (cnn_run st c a ops).
+Proof. exact cnn_valid_chain. Qed.
+Print Assumptions valid_chain_cnn.
 
-(* ... and so does change_kernel on ANY layer when the new kernel is not larger than the old one (every later
-   feature map can only grow).  The remaining gap is: inner layer AND larger kernel. *)
-Theorem change_kernel_smaller_valid_cnn : forall st c a ks hl r1 r2,
-  cnn_ok st a -> 1 < zlen (channels a) ->
-  (let i := match hl with Some l => l | None => pick 1 (Z.min 4 (zlen (channels a))) r1 end in
-   let r := match hl with Some _ => r1 | None => r2 end in
-   let k' := match ks with Some k => k | None => pick 1 (znth (max_kernels (cs_h st) (cs_w st) (kernels a) (strides a)) i + 1) r end in
-   1 <= k' <= nth (Z.to_nat i) (kernels a) 0) ->
-  cnn_ok st (arch_of (cnn_step st c a (CChangeKernel ks hl) r1 r2)).
-Proof. exact cnn_change_kernel_smaller_valid. Qed.
-Print Assumptions change_kernel_smaller_valid_cnn.
-
-Theorem change_kernel_valid_refuted_cnn :
+(* Behaviour before fix 0a5e775 (pinned model cnn_step_prefix: no roll back): change_kernel did NOT preserve validity ... *)
+Theorem change_kernel_valid_refuted_cnn_prefix :
   exists st c a r1 r2,
     cnn_ok st a /\ cnn_meth_ok (CChangeKernel None None) /\
-    cnn_valid st (arch_of (cnn_step st c a (CChangeKernel None None) r1 r2)) = false.
+    cnn_valid st (arch_of (cnn_step_prefix st c a (CChangeKernel None None) r1 r2)) = false.
 Proof. exact cnn_change_kernel_valid_refuted. Qed.
-Print Assumptions change_kernel_valid_refuted_cnn.
+Print Assumptions change_kernel_valid_refuted_cnn_prefix.
 
-(* FINDING (current tree): such an architecture is reachable from a one-layer CNN with the default bounds by eleven
-   drawn mutations, each inside the range the method itself draws from, every intermediate architecture valid
-   (replayed on the real EvolvableCNN: RuntimeError "Kernel size can't be greater than actual input size"). *)
-Theorem change_kernel_unbuildable_reachable_refuted_cnn :
+(* ... and an unbuildable architecture was reachable from a one-layer CNN with the default bounds by eleven drawn mutations,
+   each inside the range the method itself draws from, every intermediate architecture valid (on the real pre-fix module:
+   RuntimeError "Kernel size can't be greater than actual input size"; corpus/C03/cnn-change-kernel-chain-*.json). *)
+Theorem change_kernel_unbuildable_reachable_refuted_cnn_prefix :
   let st := {| cs_in_ch := 3; cs_h := 32; cs_w := 32; cs_out := 16; cs_layer_norm := false |} in
   let c := {| c_min_layers := 1; c_max_layers := 6; c_min_ch := 32; c_max_ch := 256 |} in
   let a0 := {| channels := [32]; kernels := [5]; strides := [1] |} in
   cnn_ok st a0 /\ cnn_in_bounds c 9 1 a0 /\
   Forall (fun o : cnn_op => cnn_meth_ok (fst (fst o))) unbuildable_chain /\
-  cnn_ok st (cnn_run st c a0 (removelast unbuildable_chain)) /\
-  kernels (cnn_run st c a0 unbuildable_chain) = [5; 7; 7; 7; 7; 5] /\
-  cnn_valid st (cnn_run st c a0 unbuildable_chain) = false.
+  cnn_ok st (cnn_run_prefix st c a0 (removelast unbuildable_chain)) /\
+  kernels (cnn_run_prefix st c a0 unbuildable_chain) = [5; 7; 7; 7; 7; 5] /\
+  cnn_valid st (cnn_run_prefix st c a0 unbuildable_chain) = false.
 Proof. exact cnn_unbuildable_reachable. Qed.
-Print Assumptions change_kernel_unbuildable_reachable_refuted_cnn.
+Print Assumptions change_kernel_unbuildable_reachable_refuted_cnn_prefix.
 
-(* With the candidate repair fixes/C03-cnn-change-kernel-fit.patch (change_kernel keeps the old kernel when a later layer
-   would no longer fit; modelled by cnn_step_fixed, NOT the current tree and therefore not tied by the correspondence
-   check) validity is preserved by all five methods. *)
-Theorem valid_inv_cnn_with_candidate_repair : forall st c a m r1 r2,
-  1 <= c_min_layers c -> 1 <= c_min_ch c -> cnn_meth_ok m ->
-  cnn_ok st a -> cnn_ok st (arch_of (cnn_step_fixed st c a m r1 r2)).
-Proof. exact cnn_valid_inv_fixed. Qed.
-Print Assumptions valid_inv_cnn_with_candidate_repair.
-
-Theorem valid_chain_cnn_with_candidate_repair : forall st c, 1 <= c_min_layers c -> 1 <= c_min_ch c -> forall ops a,
-  Forall (fun o : cnn_op => cnn_meth_ok (fst (fst o))) ops -> cnn_ok st a -> cnn_ok st (cnn_run_fixed st c a ops).
-Proof. exact cnn_valid_chain_fixed. Qed.
-Print Assumptions valid_chain_cnn_with_candidate_repair.
+(* the same chain on the current model: the last change is rolled back, the network stays buildable *)
+Example unbuildable_chain_now_rolled_back :
+  let st := {| cs_in_ch := 3; cs_h := 32; cs_w := 32; cs_out := 16; cs_layer_norm := false |} in
+  let c := {| c_min_layers := 1; c_max_layers := 6; c_min_ch := 32; c_max_ch := 256 |} in
+  let a0 := {| channels := [32]; kernels := [5]; strides := [1] |} in
+  kernels (cnn_run st c a0 unbuildable_chain) = [5; 1; 7; 7; 7; 5] /\ cnn_valid st (cnn_run st c a0 unbuildable_chain) = true.
+Proof. cbv zeta. split; vm_compute; reflexivity. Qed.
 
 Theorem add_layer_effective_cnn : forall st c a r1 r2,
   let mk := last (max_kernels (cs_h st) (cs_w st) (kernels a) (strides a)) 1 in
@@ -358,10 +336,13 @@ Theorem change_kernel_effective_cnn : forall st c a ks hl r1 r2,
   1 < zlen (channels a) ->
   let '(i, r) := match hl with Some l => (l, r1) | None => (pick 1 (Z.min 4 (zlen (channels a))) r1, r2) end in
   let k := match ks with Some k => k | None => pick 1 (znth (max_kernels (cs_h st) (cs_w st) (kernels a) (strides a)) i + 1) r end in
+  let new := updz (kernels a) i (fun _ => k) in
   cnn_step st c a (CChangeKernel ks hl) r1 r2 =
-  ({| channels := channels a; kernels := updz (kernels a) i (fun _ => k); strides := strides a |}, "change_kernel"%string, [i; k]) /\
+  (if kernels_fit (cs_h st) (cs_w st) new (strides a)
+   then ({| channels := channels a; kernels := new; strides := strides a |}, "change_kernel"%string, [i; k])
+   else (a, "change_kernel"%string, [i; znth (kernels a) i])) /\
   (hl = None -> 1 <= i < zlen (channels a)).
-Proof. exact cnn_change_kernel_effective. Qed.
+Proof. exact cnn_change_kernel_effective_fix. Qed.
 Print Assumptions change_kernel_effective_cnn.
 
 Theorem add_channel_effective_cnn : forall c a hl nn r1 r2,
@@ -418,11 +399,12 @@ Theorem latent_effective_net : forall s c a nn r1 r2,
 Proof. exact net_latent_effective. Qed.
 Print Assumptions latent_effective_net.
 
-(* a head mutation that reaches the head is the MLP step on the head (so the MLP theorems apply) *)
+(* a head mutation is the MLP step on the head (so the MLP theorems apply) and reports "head_net.<method applied>" —
+   also when the head is wrapped by an EvolvableWrapper (StochasticActor), since fix 108ea35 *)
 Theorem head_step_net : forall s c a hm r1 r2,
-  ns_wrapped_head s && negb wrapper_forwards = false ->
   let a' := arch_of (net_step s c a (NHead hm) r1 r2) in
-  n_head a' = arch_of (mlp_step (n_head_cfg c) (n_head a) hm r1 r2) /\ n_enc a' = n_enc a /\ n_latent a' = n_latent a.
+  n_head a' = arch_of (mlp_step (n_head_cfg c) (n_head a) hm r1 r2) /\ n_enc a' = n_enc a /\ n_latent a' = n_latent a /\
+  name_of (net_step s c a (NHead hm) r1 r2) = String.append "head_net." (name_of (mlp_step (n_head_cfg c) (n_head a) hm r1 r2)).
 Proof. exact net_head_step. Qed.
 Print Assumptions head_step_net.
 
@@ -431,15 +413,12 @@ Theorem rebuild_exact_net : forall s c st m r1 r2,
 Proof. exact net_rebuild_exact. Qed.
 Print Assumptions rebuild_exact_net.
 
-(* FINDING (current tree): the StochasticActor advertises the head's mutation methods through an
-   EvolvableWrapper, but such a call changes nothing and reports no applied method although no bound stops it.
-   ([wrapper_forwards] is the model constant that records this behaviour; the statement becomes vacuous once the
-   repair fixes/C03-wrapper-forwarding.patch is applied and the constant is set to true.) *)
+(* Behaviour before fix 108ea35 (pinned model net_step_prefix): the StochasticActor advertised the head's mutation methods
+   through an EvolvableWrapper, but such a call changed nothing and reported no applied method although no bound stopped it. *)
 Theorem advertised_effective_wrapped_head_refuted :
-  wrapper_forwards = false ->
   exists s c a r1 r2,
     ns_wrapped_head s = true /\ zlen (n_head a) < m_max_layers (n_head_cfg c) /\
-    net_step s c a (NHead MAddLayer) r1 r2 = (a, ""%string, []).
+    net_step_prefix s c a (NHead MAddLayer) r1 r2 = (a, ""%string, []).
 Proof. exact wrapped_head_mutation_ineffective_refuted. Qed.
 Print Assumptions advertised_effective_wrapped_head_refuted.
 
